@@ -4,6 +4,7 @@ import (
 	"fmt"
 	"go/types"
 	"sort"
+	"strings"
 
 	"golang.org/x/tools/go/ssa"
 )
@@ -30,10 +31,12 @@ func runC12(c *Ctx) {
 	c.Rule("C12.N", "possibly-nil messages are nil-checked by the receiving goroutine (= C07.N)", 2)
 	ruleShimNilMessages(c, p, "C12.N")
 	c.Rule("C12.A", "every endpoint path answers once, with an allowed status", 15)
-	c.Rule("C12.U", "unknown or closed sessions are rejected with 400 and forgotten", 14)
+	c.Rule("C12.U", "unknown or closed sessions are rejected with 400 and forgotten; received messages are delivered first", 15)
 	c.Rule("C12.L", "connection lifecycle pairing", 7)
 
 	ruleShimChannels(c, p, "C12.C", "C12.B")
+	c.Rule("C12.S", "concurrent opens get distinct session IDs (a shared ID orphans a connection that close can never reach)", 2)
+	ruleShimSessionIDs(c, p, "C12.S")
 	// receives in endpoint-called methods: ReadServerMessages
 	if f := c.need(p, "C12.B", "agent/websockets.(*Connection).ReadServerMessages"); f != nil {
 		bad := ""
@@ -68,6 +71,32 @@ func runC12(c *Ctx) {
 		c.Check("C12.B", "ReadServerMessages:bounded-wait", p, f.Pos(), bad == "" && n > 0, "every receive is a select with a timer, done or default alternative: a poll always returns", "a poll can block forever: "+bad)
 	}
 
+	// when the backend closed first, a poll first delivers what was received
+	if f := p.Func("agent/websockets.(*Connection).ReadServerMessages"); f != nil {
+		bad := ""
+		for _, op := range ChanOpsOf(f) {
+			if op.Kind != "recv" || op.Val == nil || NamedTypeRel(op.Val.Type()) != "agent/websockets.message" {
+				continue
+			}
+			for _, u := range Refs(op.Val) {
+				call, ok := u.(*ssa.Call)
+				if !ok || !strings.HasSuffix(CalleeName(call.Common()), ".message).Serialize") {
+					continue
+				}
+				h, _ := (&Walk{Target: func(i ssa.Instruction) bool {
+					r, isR := i.(*ssa.Return)
+					if !isR || (f.Recover != nil && i.Block() == f.Recover) {
+						return false
+					}
+					return IsNilConst(ReturnValue(r, 0)) || !IsNilConst(ReturnValue(r, 1))
+				}}).FromInstr(call)
+				if h != nil {
+					bad = "return at " + p.Pos(h.Pos())
+				}
+			}
+		}
+		c.Check("C12.U", "poll:delivers-received-before-reporting-closed", p, f.Pos(), bad == "", "once a server message was taken from the queue every return delivers the accumulated messages; the closed state is reported by the next poll", "ReadServerMessages can report the session closed ("+bad+") after it already took messages from the queue: messages received before the backend closed are never delivered")
+	}
 	se := resolveShimEndpoints(c, p, "C12.A")
 	if se == nil {
 		return
@@ -111,7 +140,9 @@ func runC12(c *Ctx) {
 			}
 			if h != nil && InLoop(i.Block()) {
 				// inside the per-message loop the error branch must leave the loop: reaching the same http.Error again is also a continuation
-				h2, _ := (&Walk{Target: func(j ssa.Instruction) bool { return j != i && IsCall(j, "(*"+ModPath+"/agent/websockets.Connection).SendClientMessage") }}).FromInstr(i)
+				h2, _ := (&Walk{Target: func(j ssa.Instruction) bool {
+					return j != i && IsCall(j, "(*"+ModPath+"/agent/websockets.Connection).SendClientMessage")
+				}}).FromInstr(i)
 				if h2 != nil {
 					dbl = "after the error answer at " + p.Pos(i.Pos()) + " the per-message loop continues"
 				}
